@@ -1,6 +1,7 @@
 #!/usr/bin/env python3
 """Apply a seeded change to /repo, check that it builds and keeps the baseline, run the given checks, undo it.
-usage: seedeval.py <patch.diff> <PROP>[,<PROP>...] [--tier quick|thorough] [--seeds 1,2]"""
+usage: seedeval.py <patch.diff> <PROP>[,<PROP>...] [--tier quick|thorough] [--seeds 1,2] [--copy]
+--copy: work on a throw-away copy of /repo's HEAD (several evaluations can then run side by side; /repo is not touched)"""
 import subprocess, sys, os, json, re, time
 patch, props = sys.argv[1], sys.argv[2].split(",")
 tier = "quick"
@@ -11,19 +12,31 @@ if "--seeds" in sys.argv:
     seeds = sys.argv[sys.argv.index("--seeds") + 1].split(",")
 def sh(cmd, **kw):
     return subprocess.run(cmd, shell=True, capture_output=True, text=True, **kw)
-assert sh("git -C /repo status --porcelain").stdout.strip() == "", "/repo not clean"
-r = sh("git -C /repo apply " + patch)
+copy = "--copy" in sys.argv
+repo = "/repo"
+if copy:
+    import tempfile
+    repo = tempfile.mkdtemp(prefix="seedrepo.", dir="/tmp")
+    r = sh("git -C /repo archive HEAD | tar -x -C " + repo)
+    assert r.returncode == 0, r.stderr
+    r = sh("git apply " + os.path.abspath(patch), cwd=repo)
+else:
+    assert sh("git -C /repo status --porcelain").stdout.strip() == "", "/repo not clean"
+    r = sh("git -C /repo apply " + patch)
 if r.returncode != 0:
-    print("PATCH DOES NOT APPLY:", r.stderr[:500]); sys.exit(3)
+    print("PATCH DOES NOT APPLY:", r.stderr[:500])
+    if copy:
+        sh("rm -rf " + repo)
+    sys.exit(3)
 out = {"patch": patch, "results": {}}
 try:
-    b = sh("/verif/tools/baseline_check.py")
+    b = sh("/verif/tools/baseline_check.py " + (repo if copy else ""))
     out["baseline_ok"] = b.returncode == 0
     print("baseline:", b.stdout.strip().splitlines()[0] if b.stdout else b.stderr[:300])
     for p in props:
         for s in seeds:
             t0 = time.time()
-            c = sh("cd /verif && VERIF_SEED=%s ./vcheck %s --tier %s" % (s, p, tier))
+            c = sh("cd /verif && VERIF_SEED=%s %s ./vcheck %s --tier %s" % (s, ("VERIF_REPO=" + repo) if copy else "", p, tier))
             viol = re.findall(r"^VIOLATION .*$", c.stdout, re.M)
             rules = re.findall(r"^  rule=([^:]+(?::[^ ]+)?)", c.stdout, re.M)
             infra = re.findall(r"^INFRA-ERROR.*$", c.stdout, re.M)
@@ -32,5 +45,8 @@ try:
             if c.returncode == 1:
                 break
 finally:
-    sh("git -C /repo checkout -- . && git -C /repo clean -fdq")
+    if copy:
+        sh("rm -rf " + repo)
+    else:
+        sh("git -C /repo checkout -- . && git -C /repo clean -fdq")
 print(json.dumps(out))
